@@ -489,8 +489,15 @@ def check_rxn(case, rec):
                          sig='aromatic-P-ambiguity' if wl.aromatic_p_ambiguity(a) else type(e).__name__)
                 return
             if molgen.map_snapshot(molgen.snapshot(a), mp) != molgen.snapshot(b):
-                rec.fail('rxn-atomwise', f'{text!r}: {str(a)!r} read as {str(b)!r}',
-                         sig='aromatic-P-ambiguity' if wl.aromatic_p_ambiguity(a) else '')
+                sig = 'aromatic-P-ambiguity' if wl.aromatic_p_ambiguity(a) else ''
+                if not sig and sum(bb.order == 4 for *_, bb in a.bonds()) != sum(bb.order == 4 for *_, bb in b.bonds()):
+                    from ..oracles import mcb
+                    try:
+                        if not mcb.analyse(mcb.mol_adj(a))['unique']:
+                            sig = 'ring-system-without-unique-mcb'
+                    except OverflowError:
+                        sig = 'ring-system-without-unique-mcb'
+                rec.fail('rxn-atomwise', f'{text!r}: {str(a)!r} read as {str(b)!r}', sig=sig)
                 return
             d = molgen.compare_stereo(a, b, mp)
             if d:
